@@ -1445,6 +1445,8 @@ class CInterp:
         a0 = self.rv(args[0])
         if op == "operator[]":
             idx = self.rv(args[1])
+            if hasattr(a0, "c_index"):  # abstract container supplied by a contract (a view of a data structure)
+                return a0.c_index(self, idx)
             if isinstance(a0, FV):
                 i = idx if isinstance(idx, int) else core.current().concrete_int(term(idx))
                 if i is None:
@@ -1538,6 +1540,13 @@ class CInterp:
         _, name, objref = m
         obj = self.rv(objref)
         args = [self.rv(self.expr(a, env)) for a in n["inner"][1:]]
+        if hasattr(obj, "c_method"):  # abstract container supplied by a contract
+            return obj.c_method(self, name, args)
+        if isinstance(obj, StructObj) and getattr(obj, "record", None) in self.records:
+            key = f"{obj.record}::{name}"
+            if key in self.call_models:  # callee contract at the call site
+                return self.call_models[key](self, [obj] + args)
+            return self.call_record_method(obj, name, args)
         if isinstance(obj, FV):
             if name == "store":
                 p = args[0]
